@@ -33,6 +33,10 @@ type Case struct {
 	Reuse bool
 	// NoSplit: do not also build the program one resource per rule
 	NoSplit bool
+	// ReuseDC (programs that call Forget / Changed only): every explored run is repeated as the second run of
+	// ONE DATA CONTEXT - a first run on another fresh instance precedes it, then the caller puts the initial
+	// values back into the same fact objects - and judged again
+	ReuseDC bool
 }
 
 // Verdict is what a judge returns for one trace.
@@ -48,7 +52,8 @@ type FamilyStats struct {
 	Nontrivial                          int64
 	Foreign                             int64
 	BuildFail                           int64
-	Reused                              int64
+	Reused, ReusedDC                    int64
+	ProvenancesIso                      int64
 	CloneOrders, CloneShapes            int64
 	Capped                              int64
 	MaxDepth                            int64
@@ -121,8 +126,12 @@ func RunFamily(rep *ev.Reporter, gen func(emit func(Case)), maxRunsPerWorld int,
 	rep.Coverage["clone_orders_examined"] = fs.CloneOrders
 	rep.Coverage["clone_orders_explored_distinct_instance_shapes"] = fs.CloneShapes
 	rep.Coverage["clone_order_hook_calls"] = hx.KeyHookCalls()
+	rep.Coverage["build_provenances_with_isomorphic_blueprint_skipped"] = fs.ProvenancesIso
 	if fs.Reused > 0 {
 		rep.Coverage["second_use_runs"] = fs.Reused
+	}
+	if fs.ReusedDC > 0 {
+		rep.Coverage["second_runs_on_one_data_context"] = fs.ReusedDC
 	}
 	rep.Coverage["max_cycles_in_a_run"] = fs.MaxDepth
 	rep.Coverage["order_controlled"] = hx.OrderLive()
@@ -194,8 +203,17 @@ func runCase(rep *ev.Reporter, c *Case, maxRuns int, fs *FamilyStats, judge func
 			variants = append(variants, variant{sb, tag})
 		}
 	}
+	bpShapes := map[string]bool{}
 	for _, vr := range variants {
 		b := vr.b
+		// a provenance whose BLUEPRINT is isomorphic to one already explored yields, under every clone order,
+		// instances isomorphic to the ones explored (Clone is a function of the blueprint graph and the order)
+		bpSig := hx.ShapeSig(b.Lib.GetKnowledgeBase(hx.KBName, hx.KBVer))
+		if bpShapes[bpSig] {
+			atomic.AddInt64(&fs.ProvenancesIso, 1)
+			continue
+		}
+		bpShapes[bpSig] = true
 		for ord := 0; ord < b.CloneOrders(); ord++ {
 			atomic.AddInt64(&fs.CloneOrders, 1)
 			if inst, err := b.InstanceOrd(ord); err == nil {
@@ -262,6 +280,63 @@ func runCase(rep *ev.Reporter, c *Case, maxRuns int, fs *FamilyStats, judge func
 					}
 					if nt {
 						atomic.AddInt64(&fs.Nontrivial, 1)
+					}
+					if c.ReuseDC && (strings.Contains(prog.Text, "Forget(") || strings.Contains(prog.Text, "Changed(")) {
+						secondDC := func() (*hx.Trace, *ref.World) {
+							w0 := mk()
+							if len(w0.Vars) > 0 || len(w0.JSON) > 0 {
+								return nil, nil
+							}
+							dc, err := hx.NewDataContext(w0)
+							if err != nil {
+								return nil, nil
+							}
+							instA, err := b.InstanceOrd(c.Opts.CloneOrd)
+							if err != nil {
+								return nil, nil
+							}
+							o := c.Opts
+							o.KB, o.DataCtx, o.Choices = instA, dc, tr.Choices
+							if first := hx.Run(b, w0, o); first.Completed || first.Panic != nil {
+								return nil, nil // a completed data context stays completed: not a fresh start
+							}
+							// the caller puts the initial values back into the SAME fact objects and runs a fresh instance
+							init := mk()
+							for name, f := range w0.Objs {
+								if g, ok := init.Objs[name]; ok {
+									*f = *g
+								}
+							}
+							instB, err := b.InstanceOrd(c.Opts.CloneOrd)
+							if err != nil {
+								return nil, nil
+							}
+							o.KB = instB
+							return hx.Run(b, w0, o), w0
+						}
+						if tr2, w2 := secondDC(); tr2 != nil {
+							atomic.AddInt64(&fs.ReusedDC, 1)
+							for _, v := range judge(c, tr2, w2) {
+								if v.Sig == "" {
+									continue
+								}
+								same := false
+								if tr3, w3 := secondDC(); tr3 != nil {
+									for _, v3 := range judge(c, tr3, w3) {
+										if v3.Sig == v.Sig {
+											same = true
+										}
+									}
+								}
+								if !same {
+									atomic.AddInt64(&fs.Nondet, 1)
+									fmt.Printf("HARNESS-NONDETERMINISM property=%s case=%s sig=%s (reused-data-context verdict not reproduced)\n", rep.ID, caseID, v.Sig)
+									continue
+								}
+								rep.Violation(v.Sig+":second-run-on-one-data-context", v.What+"\n  (observed in the SECOND run on one data context: a first run on another fresh instance preceded it, then the initial values were put back into the same fact objects)\n  case: "+caseID+"#reused-data-context\n  grl: "+strings.ReplaceAll(prog.Text, "\n", "\n       ")+"\n  events: "+strings.Join(tr2.Events, " "),
+									map[string]interface{}{"case": caseID, "grl": prog.Text, "world": wname, "choices": tr.Choices, "events": tr2.Events, "meta": c.Meta, "reused_data_context": true})
+							}
+						}
 					}
 					if c.Reuse {
 						for pi, pmk := range c.Worlds {
